@@ -126,6 +126,52 @@ func genC17(t *rapid.T) C17Case {
 	if rapid.Bool().Draw(t, "overlap") {
 		c.Op = "overlap"
 		a, b := genListPair(t, strs)
+		if !strs && rapid.IntRange(0, 4).Draw(t, "sortedpair") == 0 {
+			// two SORTED integer lists (ascending; sometimes both descending) that touch, interleave or
+			// miss each other: ranges sharing exactly one end element, adjacent ranges, evens against odds,
+			// a one-element list holding the other's largest / smallest element
+			la := rapid.SampledFrom([]int{1, 2, 30, 60, 99, 100, 121}).Draw(t, "sp_la")
+			lb := rapid.SampledFrom([]int{1, 2, 40, 50, 80, 101}).Draw(t, "sp_lb")
+			base := rapid.SampledFrom([]int64{0, -50, 1000, math.MaxInt64 - 400, math.MinInt64}).Draw(t, "sp_base")
+			sa, sb := make([]int64, la), make([]int64, lb)
+			kind := rapid.IntRange(0, 5).Draw(t, "sp_kind")
+			for i := range sa {
+				sa[i] = base + int64(i)
+			}
+			for i := range sb {
+				switch kind {
+				case 0: // b starts at a's largest element
+					sb[i] = sa[la-1] + int64(i)
+				case 1: // b starts right behind a
+					sb[i] = sa[la-1] + 1 + int64(i)
+				case 2: // b ends at a's smallest element
+					sb[i] = sa[0] - int64(lb-1) + int64(i)
+				case 3: // b ends right before a
+					sb[i] = sa[0] - int64(lb) + int64(i)
+				case 4: // b inside a's range, every second value (shares them all)
+					sb[i] = sa[0] + int64(2*i)
+				default: // evens against odds
+					sa[i%la] = base + int64(2*(i%la))
+					sb[i] = base + int64(2*i) + 1
+				}
+			}
+			if kind == 5 {
+				for i := range sa {
+					sa[i] = base + int64(2*i)
+				}
+			}
+			if rapid.IntRange(0, 3).Draw(t, "sp_desc") == 0 {
+				for _, l := range [][]int64{sa, sb} {
+					for i, j := 0, len(l)-1; i < j; i, j = i+1, j-1 {
+						l[i], l[j] = l[j], l[i]
+					}
+				}
+			}
+			a, b = sa, sb
+			if rapid.Bool().Draw(t, "sp_swap") {
+				a, b = b, a
+			}
+		}
 		switch pickW(t, "special", 8, 1, 1, 1, 1) {
 		case 1: // empty literal on one side (denotes the empty string list)
 			if rapid.Bool().Draw(t, "emptyleft") {
